@@ -108,15 +108,54 @@ def count_obligations(built, prop, scope):
     return obs
 
 
+def _fns_of_hard_errors(built, res):
+    keys = set()
+    for e in res['hard_errors']:
+        k = e.get('fn')
+        if k is None:
+            for sp in e.get('spans', []):
+                if sp['file'] == 'all.rs':
+                    f = built.fn_at(sp['line'])
+                    if f:
+                        k = f['key']
+                        break
+        if k is None:
+            return None
+        keys.add(k)
+    return keys
+
+
 def both_runs(verif, repo, use_cache, extra=()):
-    main_b = build.build(repo, verif, canary=False)
-    can_b = build.build(repo, verif, canary=True)
+    """main run + canary run.  If Verus' front end rejects the assembled file because of text inside specific
+    functions, fall back in two steps: (1) drop the body-level proof hints of those functions (they may refer to
+    locals the change renamed or shadowed), (2) put those functions under external_body (the change uses a construct
+    Verus does not support) — properties that depend on a function of step 2 are then undecided, the others are
+    still decided."""
     args = ['--rlimit', RLIMIT, '--multiple-errors', MULTI, '--num-threads', '8'] + list(extra)
-    with concurrent.futures.ThreadPoolExecutor(max_workers=2) as ex:
-        f1 = ex.submit(run.run_verus, verif, main_b, 'main', args, use_cache)
-        f2 = ex.submit(run.run_verus, verif, can_b, 'canary', ['--rlimit', '20', '--multiple-errors', '2', '--num-threads', '8'], use_cache)
-        r1 = f1.result()
-        r2 = f2.result()
+    degrade, extern = set(), set()
+    for rnd in range(4):
+        main_b = build.build(repo, verif, canary=False, degrade=degrade, extern=extern)
+        r1 = run.run_verus(verif, main_b, 'main', args, use_cache)
+        if not r1['hard_errors']:
+            break
+        keys = _fns_of_hard_errors(main_b, r1)
+        contracted = {s.key for s in main_b.fnspecs}
+        if not keys:
+            break
+        new_deg = {k for k in keys if k in contracted and k not in degrade and k not in extern}
+        if new_deg:
+            degrade |= new_deg
+            continue
+        new_ext = {k for k in keys if k not in extern}
+        if new_ext:
+            extern |= new_ext
+            degrade -= new_ext
+            continue
+        break
+    can_b = build.build(repo, verif, canary=True, degrade=degrade, extern=extern)
+    r2 = run.run_verus(verif, can_b, 'canary', ['--rlimit', '20', '--multiple-errors', '2', '--num-threads', '8'], use_cache)
+    main_b.degraded = degrade
+    main_b.externed = extern
     return main_b, can_b, r1, r2
 
 
@@ -152,6 +191,9 @@ def _check(verif, repo, prop, tier, seed, use_cache, write_evidence, t0):
     scope = scope_of(main_b, prop)
     if not scope:
         raise Undecided('no contract serves property %s' % prop)
+    ext_in_scope = [k for k in scope if k in getattr(main_b, 'externed', ())]
+    if ext_in_scope and not r1['hard_errors']:
+        raise Undecided('Verus does not support a construct now used in %s; its body cannot be verified' % ', '.join(ext_in_scope))
     if r1['hard_errors']:
         he = r1['hard_errors'][0]
         raise Undecided('Verus rejected the extracted source (unsupported construct or type error): %s @ %s' % (
@@ -161,7 +203,7 @@ def _check(verif, repo, prop, tier, seed, use_cache, write_evidence, t0):
     if r2['hard_errors']:
         raise Undecided('canary run rejected: %s' % r2['hard_errors'][0]['msg'][:200])
     fn_has_body = {f['key']: f['has_body'] for f in main_b.fns}
-    vacuous = [k for k in scope if fn_has_body.get(k) and k not in failed_canaries]
+    vacuous = [k for k in scope if fn_has_body.get(k) and k not in failed_canaries and k not in getattr(main_b, 'externed', ())]
     if vacuous:
         raise Undecided('vacuity canary did not fail for %s (contradictory precondition or axiom?)' % ', '.join(vacuous))
     # ---- obligations ----
